@@ -457,6 +457,33 @@ pub fn c14_configs(thorough: bool) -> Vec<EpCfg> {
                 c.connects = vec![ConnProf::basic(true)];
                 c.connacks = vec![AckProf { mps: Some(own), ..AckProf::basic(false) }];
             }
+            // frames whose wire size exceeds the limit only because the Remaining Length is padded
+            // (non-minimal encodings of 2..4 bytes), around the limit
+            let mut st: Vec<(String, Vec<u8>)> = vec![];
+            let ping: u8 = if role == RoleK::Client { 0xD0 } else { 0xC0 };
+            for pad in 1..=3usize {
+                let mut f = vec![ping];
+                f.extend(std::iter::repeat(0x80).take(pad));
+                f.push(0x00);
+                st.push((format!("PING non-minimal rl {} bytes", pad + 1), f));
+            }
+            for payload in 0..=3usize {
+                let body_len = 2 + 1 + 1 + payload; // topic "a", empty properties, payload
+                for pad in 0..=2usize {
+                    let mut f = vec![0x30u8];
+                    if pad == 0 {
+                        f.push(body_len as u8);
+                    } else {
+                        f.push(body_len as u8 | 0x80);
+                        f.extend(std::iter::repeat(0x80).take(pad - 1));
+                        f.push(0x00);
+                    }
+                    f.extend_from_slice(&[0, 1, b'a', 0]);
+                    f.extend(std::iter::repeat(b'p').take(payload));
+                    st.push((format!("PUBLISH q0 payload {payload} rl {} bytes", pad + 1), f));
+                }
+            }
+            c.stimuli = std::sync::Arc::new(st);
             c.groups = vec!["c14"];
             v.push(c);
         }
